@@ -28,6 +28,7 @@ class C12(EngineACheck):
         feats = set(ALL_FEATURES) - {"catchall", "forkjoin"}
         cfg = GenConfig(
             features=feats, p_error=1.0, modes=("thread", "thread", "process"),
+            error_classes=("ValueError", "KeyError", "ErrA", "ErrB", "ErrRes"),
             p_dup=0.2, max_tasks=7,
             task_options=[{"check_valid": "shallow"}], p_task_option=0.3,
             limit_names=("r1",), p_limit=0.2,
